@@ -298,7 +298,8 @@ def _case_disp(case):
     elif shape == "rows1":
         subsets = [[k] for k in range(n)]
     elif shape == "subsets":       # M x 3N, 2 <= M < 3N: leading rows and every other row
-        subsets = [list(range(m)) for m in range(2, n)] + ([list(range(0, n, 2))] if n > 3 else [])
+        sizes = range(2, n) if case.get("msub", "all") == "all" else sorted({2, 3, n // 2, n - 1} & set(range(2, n)))
+        subsets = [list(range(m)) for m in sizes] + ([list(range(0, n, 2))] if n > 3 else [])
     else:
         raise HarnessError(shape)
     tally = _Tally()
@@ -451,12 +452,16 @@ def explore(ctx):
     big_n = (12, 60)
     ctx.rule = (
         "sort/match: n in %s: ALL n! permutations x ALL 4^n phase vectors over {1,-1,i,-i} x 5 bases x 7 perturbations "
-        "x 3 argument containers; n in (12,60): all cyclic shifts and all transpositions x 2 phase patterns. "
+        "x 3 argument containers; n in (12,60): all cyclic shifts and all transpositions x 2 phase patterns "
+        "(quick tier only: n=60 with bases dft,crot x perturbations 0,uc5,ad5 as ndarrays; n=4 with the two extra containers "
+        "for perturbations 0,uc5,ad5 only; thorough: full product). "
         "sort/anybasis: all ordered pairs of distinct bases (all row orders and phase vectors for small n), block "
         "rotations through exact ties and near ties, every Householder reflection with components from a finite grid, "
         "and the reflection with an exactly zero diagonal entry; only 'output is a permutation' is asserted there. "
         "sort/mismatch: full 3^5 off-by-one lattice over (items, target rows, target cols, base rows, base cols) + ragged rows. "
-        "disp2eig: N x base x masses x row scaling x shape x mass container (full product) + off-by-one lattice. "
+        "disp2eig: N x base x 5 mass sets (incl. 1e-10 amu-like and kg) x 14 row scalings (every decade 1e-12..1e12, per-row phases, "
+        "neighbouring rows 1e-9|1e3, all decades side by side) x {scaling = mass-weighted norm, scaling = raw displacement norm} "
+        "x shape x mass container (full product in thorough; in quick the container varies for two scalings only) + off-by-one lattice. "
         "load: nq x np x 3 value patterns, every slot a distinct number. One case batches many calls; every case is "
         "non-trivial except the size-consistent points of the mismatch lattices." % (small_n,))
     ctx.assumptions = [
@@ -479,14 +484,16 @@ def explore(ctx):
         for perm in itertools.permutations(range(n)):
             for base in R.BASES:
                 for pert in R.PERTS:
-                    cases.append({"kind": "sm", "n": n, "base": base, "pert": pert, "perm": list(perm), "conts": pool_conts})
+                    # quick, n = 4: the two extra argument containers only for no / the two strongest perturbations
+                    conts = pool_conts if not (q and n == 4 and pert not in ("0", "uc5", "ad5")) else ["list"]
+                    cases.append({"kind": "sm", "n": n, "base": base, "pert": pert, "perm": list(perm), "conts": conts})
     _run(ctx, cases, "sort-match-small", chunksize=8)
 
     # ---- sort, matching clause, n = 12, 60
     cases = []
     for n in reversed(big_n):
-        if q and n == 60:                  # quick: the three non-trivial dense bases, strongest perturbations
-            bases, perts, conts = ("rotation", "dft", "crot"), ("0", "uc5", "ad5"), ["ndarray"]
+        if q and n == 60:                  # quick: the two dense complex bases, strongest perturbations
+            bases, perts, conts = ("dft", "crot"), ("0", "uc5", "ad5"), ["ndarray"]
         else:
             bases, perts, conts = R.BASES, R.PERTS, pool_conts
         for base in bases:
@@ -532,11 +539,26 @@ def explore(ctx):
 
     # ---- disp2eig
     natoms = (1, 2, 4, 20)
-    cases = [{"kind": "d", "N": N, "base": base, "mass": m, "scal": s, "shape": sh, "mcont": mc}
-             for N in natoms for base in R.BASES for m in R.MASS_KINDS for s in R.SCALINGS
-             for sh in ("full", "rows1", "subsets") for mc in ("list", "ndarray", "column")
+    # thorough: full product.  quick: the mass container (numerically irrelevant) is varied only for the
+    # scalings "1" and "ladder", and for N = 20 the M x 3N subsets are M in {2, 3, 30, 59} + every other row
+    # instead of every M; everything else is the full product in both tiers.
+    cases = [{"kind": "d", "N": N, "base": base, "mass": m, "scal": s, "mode": mode, "shape": sh, "mcont": mc,
+              "msub": "few" if (q and N == 20) else "all"}
+             for N in reversed(natoms) for base in R.BASES for m in R.MASS_KINDS for s in R.SCALINGS
+             for mode in R.NORM_MODES for sh in ("full", "rows1", "subsets")
+             for mc in (("list", "ndarray", "column") if (not q or s in ("1", "ladder")) else ("list",))
              if not (sh == "subsets" and N == 1)]
-    _run(ctx, cases, "disp2eig")
+    _run(ctx, cases, "disp2eig", chunksize=8)
+    span = {}
+    for m in R.MASS_KINDS:
+        for mode in R.NORM_MODES:
+            lo, hi = np.inf, 0.0
+            for s in R.SCALINGS:
+                u = R.displacements(R.basis(12, "crot"), R.masses(4, m), R.row_scaling(12, s), mode)
+                w = np.linalg.norm(u * np.sqrt(np.repeat(np.asarray(R.masses(4, m), dtype=float), 3)), axis=1)
+                lo, hi = min(lo, float(w.min())), max(hi, float(w.max()))
+            span[f"{m}:{mode}"] = [float("%.3g" % lo), float("%.3g" % hi)]
+    ctx.notes["disp_mass_weighted_norm_span"] = span
     ddims = OrderedDict((("dm", [0, -1, 1]), ("dc", [0, -1, 1])))
     for N in natoms:
         for rows in ("one", "full"):
@@ -562,7 +584,7 @@ def explore(ctx):
         "householder_grid": {n: f"{g}:{len(GRIDS[g])}^{n}" for n, g in grids.items()},
         "zeroblock_n": [2, 3, 4, 5, 6, 12, 60],
         "mismatch_lattice": "3^5 per (n in 2,3,4,5,12,60) x (identity, crot) x (list, ndarray)",
-        "disp_natoms": list(natoms), "masses": list(R.MASS_KINDS), "scalings": list(R.SCALINGS),
+        "disp_natoms": list(natoms), "masses": list(R.MASS_KINDS), "scalings": list(R.SCALINGS), "norm_modes": list(R.NORM_MODES),
         "disp_shapes": ["full", "rows1", "subsets"], "mass_containers": ["list", "ndarray", "column"],
         "load_nq": [1, 2, 6], "load_np": [3, 6, 60], "load_variants": list(R.LOAD_VARIANTS),
     }
@@ -613,18 +635,37 @@ def selftest():
             g = R.overlaps(b, t)
             need(all(int(np.argmax(g[i])) == placed[i] for i in range(n)), f"overlap argmax perm={perm}")
     need(len(set(map(tuple, R.all_phase_vectors(3).tolist()))) == 64, "phase vectors distinct")
-    # displacement model: M^(1/2) u, renormalised, is the eigenvector (independent of cij)
+    # displacement model: M^(1/2) u, renormalised, is the eigenvector (independent of cij), for every
+    # mass set, scaling and norm mode; the alphabets really span the decades they claim
+    e = R.basis(12, "crot")
+    sq = lambda m: np.sqrt(np.repeat(np.array(m, dtype=float), 3))[None, :]
     for kind in R.MASS_KINDS:
-        e = R.basis(12, "crot")
         m = R.masses(4, kind)
-        s = R.row_scaling(12, "mixed")
-        u = R.displacements(e, m, s)
-        w = u * np.sqrt(np.repeat(np.array(m, dtype=float), 3))[None, :]
-        w = w / np.linalg.norm(w, axis=1)[:, None]
-        need(np.max(np.abs(w - (s / np.abs(s))[:, None] * e)) < 1e-12, f"displacement model {kind}")
+        need(all(x > 0 for x in m), f"masses {kind} positive")
+        for mode in R.NORM_MODES:
+            for sk in R.SCALINGS:
+                s = R.row_scaling(12, sk)
+                u = R.displacements(e, m, s, mode)
+                w = u * sq(m)
+                wn = np.linalg.norm(w, axis=1)
+                need(np.max(np.abs(w / wn[:, None] - (s / np.abs(s))[:, None] * e)) < 1e-12, f"displacement model {kind} {sk} {mode}")
+                if mode == "mw":
+                    need(np.allclose(wn, np.abs(s), rtol=1e-12), f"mass-weighted norm is |s| ({kind} {sk})")
+                else:
+                    need(np.allclose(np.linalg.norm(u, axis=1), np.abs(s), rtol=1e-12), f"raw norm is |s| ({kind} {sk})")
+        u = R.displacements(e, m, R.row_scaling(12, "1"), "mw")
         if kind != "unit":
-            need(np.max(np.abs(u @ np.conj(u).T - np.diag(np.diag(u @ np.conj(u).T)))) > 1e-6 * np.max(np.abs(u)) ** 2,
-                 "displacements are not orthogonal before conversion")
+            g = u @ np.conj(u).T
+            need(np.max(np.abs(g - np.diag(np.diag(g)))) > 1e-6 * np.max(np.abs(g)), "displacements are not orthogonal before conversion")
+    lad = np.abs(R.row_scaling(12, "ladder"))
+    need(np.isclose(lad.min(), 1e-12, rtol=1e-12, atol=0) and np.isclose(lad.max(), 1e12, rtol=1e-12, atol=0) and
+         np.allclose(sorted(lad[:10]), sorted(float(x) for x in R.DECADES), rtol=1e-12, atol=0),
+         "ladder spans 1e-12..1e12 within one matrix")
+    a = np.abs(R.row_scaling(12, "alt"))
+    need(np.allclose(a[::2], 1e-9, rtol=1e-12, atol=0) and np.allclose(a[1::2], 1e3, rtol=1e-12, atol=0),
+         "alt: neighbouring rows 1e-9 and 1e3")
+    wn = np.linalg.norm(R.displacements(e, R.masses(4, "kg"), R.row_scaling(12, "1"), "raw") * sq(R.masses(4, "kg")), axis=1)
+    need(np.all(wn < 1e-12), "raw unit displacements with kg masses have a tiny mass-weighted norm")
     # file layout: reproduce the shipped matdyn files byte for byte; writer/parser round trip
     from mc.explore import repo_root
     for name in ("pwscf.eig", "pwscf.vec"):
